@@ -44,9 +44,9 @@ CLAIMED = {
    "CCITTFax round-trips reliably only for Group 4 without EncodedByteAlign and with EndOfBlock; all other CCITT classes are recorded as known findings by parameter class (K class, ByteAlign, EndOfBlock), so any failure of another filter or of the good CCITT class is still a violation.",
    "DESIGN.md section 4 C06"),
  "C08": ("exploration",
-   "deterministic simulation with storage-corruption, cancellation and allocation-failure faults: seeded hostile (chain, parameters, body) cases, bit flips/splices/truncation, early Close at read k, drawn small membudget, testing/synctest bubble for exact goroutine-leak detection",
-   "Seeded search over hostile decoder inputs and consumer behaviours; oracles: no panic, every error IsMalformed, termination (step caps + wall-clock watchdog confirmed in a fresh process), allocation proxy, CCITT geometry cap, and no goroutine left durably blocked once the reader is closed or DecodeStream has failed (exact, via the synctest bubble).",
-   "Allocation is bounded by a TotalAlloc proxy, not by instrumenting the allocator; CPU-only hangs rely on the watchdog; the DCT/JBIG2 geometry caps are too large to drain per run.",
+   "deterministic simulation with storage-corruption, cancellation and allocation-failure faults and a simulated clock: seeded hostile (chain, parameters, body) cases incl. JPEG and JBIG2 streams forged marker by marker / segment by segment, bit flips/splices/truncation, early Close at read k, drawn small membudget, testing/synctest bubble for exact goroutine-leak detection, decode time measured as a deterministic work counter inserted into internal/filter/** by a build overlay",
+   "Seeded search over hostile decoder inputs and consumer behaviours; oracles: no panic, every error IsMalformed, simulated time (work ticks) <= K*(per-stream budget + bytes produced), termination (step caps + wall-clock watchdog confirmed in a fresh process), allocation proxy, CCITT geometry cap, and no goroutine left durably blocked once the reader is closed or DecodeStream has failed (exact, via the synctest bubble).",
+   "Allocation is bounded by a TotalAlloc proxy, not by instrumenting the allocator; the proportionality constants K of the work bound (24 DCT, 128 JBIG2, 64 others) are calibrated on the unchanged tree and exclude only work that grows without matching input, budget or output; the work bound is applied only when no stage before the last one can expand; the DCT/JBIG2 geometry caps are too large to drain per run.",
    "DESIGN.md section 4 C08"),
 
  "C18": ("exploration",
@@ -110,7 +110,7 @@ def main():
         "setup_cmd": "./setup.sh",
         "hooks": {
             "guard": "verif",
-            "enable": "no hook is committed to /repo: C18's harness is built with `go test -c -overlay` from AST-instrumented copies of the working tree's resource.go, cursor.go, filter.go, font/cmap/predefined.go, font/mapping/mapping.go generated by /verif/bin/instr at check time; all other checks drive the unmodified working tree through its public interfaces",
+            "enable": "no hook is committed to /repo: C18's harness is built with `go test -c -overlay` from AST-instrumented copies of the working tree's resource.go, cursor.go, filter.go, font/cmap/predefined.go, font/mapping/mapping.go generated by /verif/bin/instr at check time (scheduler yield points); C08's harness is built the same way with a work counter (one tick per function entry and loop iteration) in the packages under internal/filter/; all other checks drive the unmodified working tree through its public interfaces",
             "baseline_off_cmd": "cd /repo && go test -vet=off -count=1 -timeout 25m ./...",
             "source_commits": [],
             "add_only": True,
